@@ -1399,10 +1399,19 @@ void Analyser::AnalyserImpl::analyseEquationAst(const AnalyserEquationAstPtr &as
             auto variable = astGreatGrandparent->mPimpl->mOwnedRightChild->variable();
             auto issue = Issue::IssueImpl::create();
 
-            issue->mPimpl->setDescription("The differential equation for variable '" + variable->name()
-                                          + "' in component '" + owningComponent(variable)->name()
-                                          + "' must be of the first order.");
-            issue->mPimpl->mItem->mPimpl->setMath(owningComponent(variable));
+            if (variable != nullptr) {
+                issue->mPimpl->setDescription("The differential equation for variable '" + variable->name()
+                                              + "' in component '" + owningComponent(variable)->name()
+                                              + "' must be of the first order.");
+                issue->mPimpl->mItem->mPimpl->setMath(owningComponent(variable));
+            } else {
+                // What is differentiated is not a variable (e.g. a number, a constant or an expression), so refer
+                // to the derivative itself.
+
+                issue->mPimpl->setDescription("The derivative " + expression(astGreatGrandparent)
+                                              + " must be of the first order.");
+            }
+
             issue->mPimpl->setReferenceRule(Issue::ReferenceRule::ANALYSER_ODE_NOT_FIRST_ORDER);
 
             addIssue(issue);
